@@ -327,6 +327,8 @@ def gen_bank_config(rng, iban_effective: dict | None) -> dict:
                     e["primary"] = bool(rng.randrange(2))
                 if rng.random() < 0.2:
                     e["extra"] = {"note": rng.randrange(5)}
+                if rng.random() < 0.15:
+                    e["bank_code"] = rng.choice(["", "stale"])  # a left-over placeholder: every listed code overrides it
                 entries.append(e)
             files[n] = _dump(rng, {"entries": entries, "expand_from": "bank_codes", "expand_into": "bank_code"})
         else:
